@@ -10,7 +10,7 @@ def run(ctx):
     # the recorded findings first, as fixed scripts (lib/directed.py): reported as KNOWN-FINDING while they are still present
     import directed
     fails = []
-    for cls in (directed.F25, directed.F26, directed.F24):
+    for cls in (directed.F24, directed.F25, directed.F26):
         fails += CC.run_scenarios(ctx, "C04", 1, scenario_cls=cls, seeds=[0])
     fails += CC.run_scenarios(ctx, "C04", n, steps=60)
     # a busy broker (many inbound messages, small Receive Maximum): acknowledgements queue up behind throttled publishes
